@@ -9,7 +9,7 @@ from harness.deflate_common import dflplan as D
 H = "harness/C07/h_stream.c"
 
 
-def stream_query(prefix, wrap, chunks, oc, eosmode, flush1, cl, check14=0, witness=False, core=False, fam=None, timeout=None, check05=0, table=1):
+def stream_query(prefix, wrap, chunks, oc, eosmode, flush1, cl, check14=0, witness=False, core=False, fam=None, timeout=None, check05=0, table=1, flushat=0, flush3=0):
     n = sum(chunks)
     c1 = chunks[0]
     lits = list(cl)
@@ -27,6 +27,12 @@ def stream_query(prefix, wrap, chunks, oc, eosmode, flush1, cl, check14=0, witne
         extra["harness.%d" % i] = kmax + 3
     qid = "%s/%s/i%d-%d-%d/o%d/e%d/f%d/c%s" % (prefix, D.WRAPS[wrap], chunks[0], chunks[1], chunks[2], oc, eosmode, flush1,
                                                "".join("%x" % c for c in lits) or "-")
+    if flushat:
+        hdef.append("FLUSHAT=%d" % flushat)
+        qid += "/at%d" % flushat
+    if flush3:
+        hdef.append("FLUSH3=%d" % flush3)
+        qid += "/third%d" % flush3
     if table == 0:
         qid += "/default"
     params = dict(harness=H, units=D.UNITS, vunits=D.VUNITS, hdefines=hdef, unwind=3,
